@@ -111,6 +111,30 @@ Theorem C14_inplace_visible_eval : forall mt b c i h k r items z,
 Proof. exact eval_append_visible. Qed.
 Print Assumptions C14_inplace_visible_eval.
 
+(** * Imports (pyimport and import statements of a py block share CPython's import system)
+
+    [import a.b.c] imports every module of the chain: afterwards each is in sys.modules ... *)
+Theorem C14_import_loads_chain : forall mt ms ld ld',
+  load_chain mt ms ld = (true, ld') ->
+  (forall x, In x ms -> mem x ld' = true) /\ (forall x, mem x ld = true -> mem x ld' = true).
+Proof. exact load_chain_loaded. Qed.
+Print Assumptions C14_import_loads_chain.
+
+(** ... and an imported submodule is an attribute of its package, so the dotted path resolves
+    through the top-level name the statement binds; one that was never imported is not *)
+Theorem C14_import_submodule_is_attribute : forall mt ld m a attrs sub,
+  mod_get m mt = Some attrs -> a <> "<self>" -> ns_get a attrs = None ->
+  mod_get (m ++ "." ++ a)%string mt = Some sub -> mem (m ++ "." ++ a)%string ld = true ->
+  mod_attr mt ld m a = Some (mod_value mt (m ++ "." ++ a)%string).
+Proof. exact mod_attr_submodule. Qed.
+Print Assumptions C14_import_submodule_is_attribute.
+
+Theorem C14_import_unimported_submodule_hidden : forall mt ld m a attrs,
+  mod_get m mt = Some attrs -> ns_get a attrs = None -> mem (m ++ "." ++ a)%string ld = false ->
+  mod_attr mt ld m a = None.
+Proof. exact mod_attr_not_imported. Qed.
+Print Assumptions C14_import_unimported_submodule_hidden.
+
 (** * eval cannot leak (after the repair e6daded of Context.get_eval_string)
 
     For EVERY expression of the fragment — assignment expressions at module level, in lambdas, in
@@ -210,3 +234,24 @@ Proof. vm_compute. reflexivity. Qed.
 Example C14_inplace_nonvacuous :
   ns_get "lst" c1 = Some (PRef 0) /\ nth_error h1 0 = Some (OList [PInt 1; PInt 2]).
 Proof. split; reflexivity. Qed.
+
+(** dotted imports: [import pkg.sub.mod] binds [pkg] and the whole path resolves — at module level,
+    in a lambda, in a comprehension; [pkg.other] was not imported and is not an attribute;
+    aliased and from-forms bind the leaf *)
+Definition pkg_mods : list (string * ns) :=
+  [("pkg", [("TOP", PInt 1)]); ("pkg.other", [("NAME", PStr "other")]);
+   ("pkg.sub", [("SUBC", PInt 2)]); ("pkg.sub.mod", [("CONST", PInt 40)])].
+Definition path_const : expr := XAttr (XAttr (XAttr (N "pkg") "sub") "mod") "CONST".
+Example C14_import_nonvacuous :
+  eval_case pkg_mods std_builtins 1 h1 [("a", PInt 1); ("lst", PRef 0)]
+    [SImport "pkg.sub.mod"; SImportAs "pkg.sub.mod" "m"; SFrom "pkg.sub" "mod" "leaf"; SFrom "pkg.sub.mod" "CONST" "Y"]
+    [ XBin BAdd path_const (N "a"); XLam ["k"] (XBin BAdd path_const (N "k")) [XInt 2];
+      XComp (XBin BAdd path_const (N "x")) [("x", N "lst")];
+      XAttr (XAttr (N "pkg") "other") "NAME";
+      XList [XAttr (N "m") "CONST"; XAttr (N "leaf") "CONST"; N "Y"] ]
+  = Some (mk_obs
+      [ Ok (CInt 41); Ok (CInt 42); Ok (CList 1000 [CInt 41; CInt 42]); Err "AttributeError" "";
+        Ok (CList 1001 [CInt 40; CInt 40; CInt 40]) ]
+      [("a", CInt 1); ("lst", CList 0 [CInt 1; CInt 2])]
+      [("pkg", CMod "pkg"); ("m", CMod "pkg.sub.mod"); ("leaf", CMod "pkg.sub.mod"); ("Y", CInt 40)] []).
+Proof. vm_compute. reflexivity. Qed.
